@@ -5269,6 +5269,10 @@ class DfaCompileCtx:
             if next_target is None or next_target.is_fallthrough:
                 continue
 
+            # Stopping in an accepting state is what makes the parser report DONE when the input ends there: it cannot be skipped
+            if transition.target in self.dfa.accepting_states:
+                continue
+
             # An action which returns to the caller (a yield) has to stay in front of the character it precedes: making this
             # transition consume would report the yield one character late.
             if any(x.may_return_early() for x in transition.actions):
